@@ -297,7 +297,33 @@ def part_fixed(ctx):
     ctx.domain("hand-picked end-of-data situations x kinds x read sizes x routes", n)
 
 
+def part_big(ctx):
+    """one stream beyond the framer's 20 MB buffer-trim threshold, read in chunks: complete, cut inside the last
+    packet and cut inside a packet just after the trim point"""
+    pkts = [pk.mkpacket(i % 2048, bytes([i & 0xFF]) * 65536, seqcount=i) for i in range(330)]
+    full = b"".join(pkts)
+    n = 0
+    for cut in (len(full), len(full) - 3, 307 * 65542 + 10):
+        for kind, rs in (("bytesio", 100000), ("bytesio", 65542), ("socket", 4096)):
+            data = full[:cut]
+            ctx.count()
+            n += 1
+            ctx.cls("beyond 20 MB")
+            ctx.nontrivial_distinct()
+            items, ended, exc = drive(data, 0, kind, rs, "ccsds")
+            r = judge(data, 0, items, ended, exc)
+            if r is None and len(items) != cut // 65542:
+                r = ("boundary-count", f"{len(items)} items yielded, {cut // 65542} complete packets in the stream")
+            if r:
+                ctx.fail(r[0], f"{kind} source, read size {rs}, 330 x 65536-byte packets cut at {cut}: {r[1]}",
+                         {"big": True, "cut": cut, "kind": kind, "rs": rs}, bucket=f"{r[0]}|big|{kind}")
+    ctx.domain("big stream x cuts x chunked sources", n)
+    ctx.sample("big", {"bytes": len(full), "cuts": 3})
+
+
 def replay_fixed(ctx, case):
+    if case.get("big"):
+        return part_big(ctx)
     if "fixed" in case:
         kind, route = case["fixed"]
         data = bytes.fromhex(case["data"])
@@ -350,14 +376,14 @@ def part_fuzz(ctx, runs, seed):
         shutil.rmtree(out, ignore_errors=True)
 
 
-PARTS = {"cuts": part_cuts, "bigcuts": part_bigcuts, "arbitrary": part_arbitrary, "fixed": part_fixed, "fuzz": part_fuzz}
-REPLAY = {"cuts": check_stream, "bigcuts": check_stream, "arbitrary": check_arbitrary, "fixed": replay_fixed, "fuzz": check_arbitrary}
+PARTS = {"big": part_big, "cuts": part_cuts, "bigcuts": part_bigcuts, "arbitrary": part_arbitrary, "fixed": part_fixed, "fuzz": part_fuzz}
+REPLAY = {"big": replay_fixed, "cuts": check_stream, "bigcuts": check_stream, "arbitrary": check_arbitrary, "fixed": replay_fixed, "fuzz": check_arbitrary}
 KNOWN = {}
 FLOORS = {"cut inside a packet": ("", 0.3)}
 
 
 def plan(tier, seed):
-    tasks = [("fixed", {})]
+    tasks = [("fixed", {}), ("big", {})]
     if tier == "quick":
         for _ in range(12):
             tasks.append(("cuts", {"examples": 25}))
